@@ -106,7 +106,7 @@ theorem vm_query {fl : Bool} (prog : List Term) (query : Term) (max : Nat) (hfra
       hans0 (by decide) (qHead_shape query') ?_ (by simpa using hs)
     refine ⟨1000000, fun v => .var v, (· - 10), _, [], Nat.le_of_eq hnv0.symm,
       hW2, .collect, .nil, CutsOK.nil _, hq, hgD2, .cons hitem .nil⟩
-  rcases tp_all (tmpl := query') (max := max) (prog := prog) (F := F) hprog k _ [] _ sig m' hd hgood 0 [] r1 hspec hok0
+  rcases tp_all (tmpl := query') (max := max) (prog := prog) (F := F) hprog k _ [] _ sig m' hd hgood 0 [] r1 hspec.toW hok0
       ⟨rfl, by show 0 < 2; omega⟩ hmax with hill | hm
   · exact Or.inl hill
   · right
